@@ -14,7 +14,7 @@ import itertools
 from .. import arr as A
 from ..report import Finding
 from .common import *
-from .modelbox import build_model, spatial_for
+from .modelbox import build_model, spatial_for, reachable_outputs
 
 
 def worker(job):
@@ -43,10 +43,12 @@ def worker(job):
         problems.append(("type", "the model returns %s" % type(y).__name__, None))
         return dict(cfg=cfg, problems=problems)
     got = [(t, y[t].shape[0]) for t in y.keys()]
-    if dict(got) != dict(out_sig):
-        problems.append(("signature", "output signature %s, requested %s" % (got, out_sig), None))
-    elif got != out_sig:
-        problems.append(("order", "output types come in order %s, requested order %s" % ([t for t, _ in got], [t for t, _ in out_sig]), None))
+    want_sig = reachable_outputs(spec)
+    if dict(got) != dict(want_sig):
+        problems.append(("signature", "output signature %s, requested%s %s" % (got, " and reachable through the filters present" if spec.get("missing") else "", want_sig), None))
+    elif got != want_sig:
+        problems.append(("order", "output types come in order %s, requested order %s" % ([t for t, _ in got], [t for t, _ in want_sig]), None))
+    out_sig = want_sig
     for t, c in out_sig:
         if t in y and y[t].shape != (y[t].shape[0],) + tuple(N) + (D,) * t[0]:
             problems.append(("shape", "block %s has shape %r, expected (%d,)+%r+%r" % (tname(t), y[t].shape, c, tuple(N), (D,) * t[0]), site_of(y[t])))
@@ -89,7 +91,7 @@ def run(ctx):
         "offending statement. The conventional mode's flatten/unflatten is additionally checked with tracked provenance for the swept signatures."
     )
     ev.rule_text = "one obligation per (class, mode, signatures incl. several types / pseudo-types / unequal channels, depth, blocks, downsamples, convs, normalisation, bias, activation, kernel size, D, flags, extents)"
-    ev.assumptions = ["documented output-extent formulas of eqx.nn.Conv / ConvTranspose (shape summaries); their numeric content is not modelled", "filter banks contain every needed type (banks with missing types are not swept)"]
+    ev.assumptions = ["documented output-extent formulas of eqx.nn.Conv / ConvTranspose (shape summaries); their numeric content is not modelled", "for banks with an absent filter type the expected output is the requested signature restricted to the types reachable in one step from the carried types; configurations whose reachable set depends on the number of layers are not used"]
     for q in ("make_conv", "ConvBlock.__init__", "ConvBlock.__call__", "UNet.__init__", "UNet.__call__", "ResNet.__init__", "ResNet.__call__", "DilResNet.__init__", "DilResNet.__call__"):
         pm.func(MODELS_MOD, q)
         ev.functions.add(MODELS_MOD + "." + q)
@@ -147,6 +149,42 @@ def run(ctx):
                                 elif si == 1:
                                     s["is_torus"] = [False] * D
                                 specs.append(s)
+    # banks as get_invariant_filters really returns them: for 3^D filters no (0,1) filter exists, so that type is
+    # absent from the bank; the output is then the requested signature restricted to the reachable types, in the
+    # requested order
+    msigs = [
+        ([((0, 1), 1), ((1, 0), 1)], [((0, 0), 1), ((1, 1), 1)]),
+        ([((0, 0), 1)], [((0, 0), 1), ((0, 1), 1)]),
+        ([((1, 0), 1), ((0, 1), 2)], [((0, 1), 1), ((1, 1), 2), ((0, 0), 1)]),
+        ([((0, 0), 2)], [((1, 1), 1), ((0, 1), 2)]),
+    ]
+    n_missing = 0
+    for D in (2, 3):
+        for cls in ("ResNet", "DilResNet", "UNet", "ConvBlock"):
+            for mi, (i, o) in enumerate(msigs):
+                if D == 3 and mi >= 2 and not th:
+                    continue
+                for gn in (True, False) if (th or mi == 0) else (True,):
+                    s = dict(D=D, cls=cls, equivariant=True, input=i, output=o, depth=2, use_group_norm=gn, use_bias="auto", activation="relu", missing=[(0, 1)])
+                    if cls == "UNet":
+                        s.update(num_downsamples=1, num_conv=1)
+                    from .modelbox import reachable_outputs as _ro
+                    if _ro(s) is None:
+                        continue
+                    specs.append(s)
+                    n_missing += 1
+    ev.instances("C20.AXI.missing_bank_configs", n_missing, floor=20)
+    # explicit mid_keys (unequal channels per type, a type that is neither input nor output), both modes; a
+    # conventional ConvBlock with batch norm
+    for D in (2, 3) if th else (2,):
+        for cls in ("ResNet", "DilResNet", "UNet"):
+            i, o = sigs[0]
+            specs.append(dict(D=D, cls=cls, equivariant=True, input=i, output=o, depth=2, use_group_norm=True, use_bias="auto", activation="relu", mid_keys=[((0, 0), 2), ((1, 0), 3), ((1, 1), 1)], num_downsamples=1, num_conv=1, is_torus=[True] + [False] * (D - 1)))
+            specs.append(dict(D=D, cls=cls, equivariant=False, input=i, output=o, depth=2, use_group_norm=False, use_bias="auto", activation="relu", kernel_size=3, mid_keys=[((0, 0), 5)], num_downsamples=1, num_conv=2))
+    specs.append(dict(D=2, cls="ResNet", equivariant=False, input=sigs[0][0], output=sigs[0][1], depth=2, use_group_norm=True, use_bias="auto", activation="callable", kernel_size=3, num_blocks=1, num_conv=1))
+    specs.append(dict(D=2, cls="ResNet", equivariant=True, input=sigs[0][0], output=sigs[0][1], depth=2, use_group_norm=True, use_bias="auto", activation="callable", num_blocks=1, num_conv=1))
+    specs.append(dict(D=2, cls="ConvBlock", equivariant=False, input=[((0, 0), 3)], output=[((0, 0), 2)], depth=2, use_bias="auto", activation="relu", kernel_size=3, use_batch_norm=True, preactivation_order=False))
+    specs.append(dict(D=2, cls="ConvBlock", equivariant=False, input=[((0, 0), 3)], output=[((0, 0), 2)], depth=2, use_bias="auto", activation="relu", kernel_size=3, use_batch_norm=True, preactivation_order=True, is_torus=[False, True]))
     jobs = [(ctx.repo, s) for s in specs]
     by = {}
     for job, r in ctx.pairs(worker, jobs):
